@@ -10,7 +10,7 @@ import SqlObjVerif.Model.DrvUtil
 
 clause: `none` or comma-separated prefix form `tt` `cmp,<op>,<a>,<b>` `isnull,<a>` `notnull,<a>` `and,<e>,<e>`
 `or,<e>,<e>` `not,<e>` `andn,<k>,<e>…` `orn,<k>,<e>…` (the n-ary helpers); operands `c<i>` `cid` `l<int>` `g`.
-order: `nodefault` | `none` | `one=<arg>` | `many=<arg>;…`; arg = `s<string>` | `e<oexpr>`; oexpr = `d`* then
+order: `nodefault` | `none` | `one=<arg>` | `many=<arg>;…` (list) | `tuple=<arg>;…`; arg = `s<string>` | `e<oexpr>`; oexpr = `d`* then
 `f<i>` | `fid` | `k<raw>`.
 op: `order=<order>` `rev` `dist` `filter=<clause>`.
 terminal: `list` `count` `sum=<term>` `min=` `max=` `avg=` (term = `f<i>` | `fid` | `k<raw>`) `one` `one0`.
@@ -112,9 +112,12 @@ def pOrder (s : String) : Option (Option OrderBy) :=
   if s == "nodefault" then some none
   else if s == "none" then some (some .none)
   else if s.startsWith "one=" then (pArg (s.drop 4).toString).map fun a => some (.one a)
-  else if s == "many=" then some (some (.many []))
+  else if s == "many=" then some (some (.many .list []))
+  else if s == "tuple=" then some (some (.many .tuple []))
+  else if s.startsWith "tuple=" then
+    (allSome (((s.drop 6).toString.splitOn ";").map pArg)).map fun l => some (.many .tuple l)
   else if s.startsWith "many=" then
-    (allSome (((s.drop 5).toString.splitOn ";").map pArg)).map fun l => some (.many l)
+    (allSome (((s.drop 5).toString.splitOn ";").map pArg)).map fun l => some (.many .list l)
   else none
 
 def pTerm (s : String) : Option Term :=
